@@ -2,6 +2,7 @@ package props
 
 import (
 	crand "crypto/rand"
+	"errors"
 	"fmt"
 	"io"
 	"regexp"
@@ -15,6 +16,7 @@ import (
 	"github.com/russellhaering/gosaml2/uuid"
 
 	"verif/harness/mon"
+	"verif/harness/sim"
 )
 
 func init() {
@@ -25,6 +27,7 @@ func init() {
 
 type randSpy struct {
 	inner   io.Reader
+	fail    atomic.Int64 // when > 0, every Read fails after delivering fail-1 bytes
 	chunk   atomic.Int64 // when > 0, deliver at most this many bytes per Read (a legal io.Reader behaviour)
 	stream  []byte       // in chunk mode: every byte delivered inside uuid.NewV4, in order (single goroutine)
 	mu      sync.Mutex
@@ -41,6 +44,15 @@ func maskV4(b [16]byte) [16]byte {
 }
 
 func (s *randSpy) Read(p []byte) (int, error) {
+	if f := s.fail.Load(); f > 0 {
+		// the entropy source is failing: it delivers f-1 bytes (possibly none) and an error
+		n := int(f - 1)
+		if n > len(p) {
+			n = len(p)
+		}
+		s.inner.Read(p[:n])
+		return n, errors.New("verif: entropy source unavailable")
+	}
 	if c := int(s.chunk.Load()); c > 0 && len(p) > c {
 		p = p[:c]
 	}
@@ -256,6 +268,43 @@ func runC18(c *mon.Ctx) {
 		}
 	}
 	spy.chunk.Store(0)
+	// phase 5: the entropy source fails (nothing delivered, or a partial read, then an error). No message may be
+	// emitted then: its identifier could not hold 122 fresh random bits. An error or a panic is the only honest outcome.
+	type emitted struct{ kind, id string }
+	var emittedNoEntropy []emitted
+	failedCalls := 0
+	{
+		sp, _, _ := NewSP(BaseTime(c.Seed))
+		sp.SetSPSigningKeyStore(&saml2.KeyStore{Signer: sim.K("spsign").Signer, Cert: sim.Wide(sim.K("spsign"), BaseTime(c.Seed)).DER})
+		builders := []struct {
+			name string
+			fn   func() (*etree.Document, error)
+		}{
+			{"AuthnRequest", sp.BuildAuthRequestDocumentNoSig},
+			{"LogoutRequest", func() (*etree.Document, error) { return sp.BuildLogoutRequestDocumentNoSig("u", "s") }},
+			{"LogoutResponse", func() (*etree.Document, error) {
+				return sp.BuildLogoutResponseDocumentNoSig(saml2.StatusCodeSuccess, "_r")
+			}},
+			{"AuthnRequest(signed)", sp.BuildAuthRequestDocument},
+			{"LogoutRequest(signed)", func() (*etree.Document, error) { return sp.BuildLogoutRequestDocument("u", "s") }},
+			{"LogoutResponse(signed)", func() (*etree.Document, error) { return sp.BuildLogoutResponseDocument(saml2.StatusCodeSuccess, "_r") }},
+		}
+		for _, f := range []int64{1, 8, 16} {
+			spy.fail.Store(f)
+			for round := 0; round < 3; round++ {
+				for _, b := range builders {
+					var doc *etree.Document
+					var err error
+					pv, _ := mon.Guard(func() { doc, err = b.fn() })
+					failedCalls++
+					if pv == nil && err == nil && doc != nil && doc.Root() != nil {
+						emittedNoEntropy = append(emittedNoEntropy, emitted{b.name, doc.Root().SelectAttrValue("ID", "")})
+					}
+				}
+			}
+		}
+		spy.fail.Store(0)
+	}
 
 	// ---- oracle over the recorded events ----
 	cs := c.Begin("identifiers", 0)
@@ -329,6 +378,10 @@ func runC18(c *mon.Ctx) {
 		}
 	}
 	c.Count("identifiers_from_short_reads", int64(len(shortIDs)))
+	c.Count("builder_calls_with_failing_entropy", int64(failedCalls))
+	for _, e := range emittedNoEntropy {
+		cs.Violation("emitted-without-entropy:"+e.kind, "while crypto/rand.Reader was failing, a %s was emitted with ID %q", e.kind, e.id)
+	}
 	if n := badFormat.Load(); n > 0 {
 		fb, _ := firstBad.Load().(string)
 		cs.Violation("identifier-format", "%d identifiers with a bad format; first: %s", n, fb)
